@@ -356,6 +356,37 @@ def handleLine (st0 : DrvSt) (line : String) : DrvSt × String :=
             | _ => none
           go fs0 ops
         (st, match r with | some vs => (V.list vs).render | none => "(bad-op)")
+      | "world.run", [.list nodes, .list ops] =>
+        -- long-lived objects (C17): ops (put p #b) (del p) (mkdir p) (construct o p) (enter o) (new p now) (copy o dst) (get p)
+        let mk : V → Option (Nat × Node)
+          | .list [p, .sym "file", .hex b] => do pure (← p.nat?, Node.file b)
+          | .list [p, .sym "dir"] => do pure (← p.nat?, Node.dir)
+          | _ => none
+        let outName : FsOut → String
+          | .ok => "ok" | .fileExists => "FileExistsError" | .notFound => "FileNotFoundError" | .invalid => "invalid" | .isDir => "isDir"
+        let r : Option (List V) := do
+          let fs0 ← nodes.mapM mk
+          let rec goW (w : World) : List V → Option (List V)
+            | [] => some []
+            | .list [.sym "get", p] :: rest => do
+                let v : V := match w.fs.get (← p.nat?) with | some (.file b) => .hex b | some .dir => .sym "dir" | none => .sym "absent"
+                let tl ← goW w rest
+                pure (v :: tl)
+            | o :: rest => do
+                let op ← match o with
+                  | .list [.sym "put", p, .hex b] => do pure (WOp.put (← p.nat?) b)
+                  | .list [.sym "del", p] => do pure (WOp.del (← p.nat?))
+                  | .list [.sym "mkdir", p] => do pure (WOp.mkdir (← p.nat?))
+                  | .list [.sym "construct", ob, p] => do pure (WOp.construct (← ob.nat?) (← p.nat?))
+                  | .list [.sym "enter", ob] => do pure (WOp.enter (← ob.nat?))
+                  | .list [.sym "new", p, now] => do pure (WOp.new (← p.nat?) (← now.int?))
+                  | .list [.sym "copy", ob, d] => do pure (WOp.copy (← ob.nat?) (← d.nat?))
+                  | _ => none
+                let r := w.step op
+                let tl ← goW r.1 rest
+                pure (.sym (outName r.2) :: tl)
+          goW { fs := fs0 } ops
+        (st, match r with | some vs => (V.list vs).render | none => "(bad-op)")
       | _, _ =>
         match handle cmd args with
         | some v => (st, v.render)
